@@ -251,4 +251,49 @@ theorem task_done_le_puts (d : Disc) (m : Nat) (ops : List Op) :
 example : (step (after .fifo 1 [.put 1 none, .taskDone]) .taskDone).2.res = .valueError := by decide
 example : (join (after .fifo 1 [.put 1 none]) none).2 = [] := by decide
 
+/-! ### blocked getters / putters are served in deque (= arrival) order, skipping only dead ones -/
+
+theorem takeWhile_all {α} (p : α → Bool) (l : List α) : ∀ x ∈ l.takeWhile p, p x = true := by
+  induction l with
+  | nil => simp
+  | cons b l ih =>
+    simp only [List.takeWhile_cons]
+    split
+    · rename_i hb
+      intro x hx
+      rcases List.mem_cons.mp hx with rfl | hx
+      · exact hb
+      · exact ih x hx
+    · simp
+
+theorem dropWhile_split {α} (p : α → Bool) (l : List α) (a : α) (r : List α) (h : l.dropWhile p = a :: r) :
+    ∃ pre, l = pre ++ a :: r ∧ ∀ x ∈ pre, p x = true := by
+  refine ⟨l.takeWhile p, ?_, takeWhile_all p l⟩
+  rw [← h, List.takeWhile_append_dropWhile]
+
+/-- `put_nowait` hands the item to the first getter of the deque that is still pending -/
+theorem getters_fifo (s : St) (g : Nat) (gs : List Nat) (h : (consume s).getters = g :: gs) :
+    isPend s.futs g = true ∧ ∃ pre, s.getters = pre ++ g :: gs ∧ ∀ a ∈ pre, isPend s.futs a = false := by
+  refine ⟨consume_getters_head h, ?_⟩
+  obtain ⟨pre, h1, h2⟩ := dropWhile_split (fun g => !isPend s.futs g) s.getters g gs h
+  exact ⟨pre, h1, fun a ha => by simpa using h2 a ha⟩
+
+/-- `get_nowait` admits the item of the first putter of the deque that is still pending -/
+theorem putters_fifo (s : St) (p : Nat × Nat) (ps : List (Nat × Nat)) (h : (consume s).putters = p :: ps) :
+    isPend s.futs p.2 = true ∧
+    ∃ pre, s.putters = pre ++ p :: ps ∧ ∀ a ∈ pre, isPend s.futs a.2 = false := by
+  refine ⟨consume_putters_head h, ?_⟩
+  obtain ⟨pre, h1, h2⟩ := dropWhile_split (fun p : Nat × Nat => !isPend s.futs p.2) s.putters p ps h
+  exact ⟨pre, h1, fun a ha => by simpa using h2 a ha⟩
+
+/-! ### refinement to the sequential specification (stated, not proved: tie-only, see docs/C35.md) -/
+
+/-- same results and same resolutions, in the same order, as the sequential queue of `Spec.lean`; this is
+where "blocked getters and putters are served in arrival order" and "timed-out operations have no effect"
+live.  Exercised on every run (impl ≟ Model, impl ⊨ Spec). -/
+def refines_spec_goal : Prop :=
+  ∀ (d : Disc) (m : Nat) (ops : List Op),
+    (run (init d m) ops).2.map (fun o => (o.res, o.evs)) =
+      (Spec.run (Spec.init d m) ops).2.map (fun o => (o.res, o.evs))
+
 end TornadoModel.C35
